@@ -229,7 +229,13 @@ for _h in ('c13_visitor_u256_from_u64', 'c13_visitor_u256_from_nonneg_i64', 'c13
       'for every JSON number of that Rust type: taken at exactly its mathematical value, or refused when fractional / not exactly representable (|x| >= 2^53)', complete=True)
 N('nb_tx_encoding_vs_reference', TXN, 'Transaction::{deserialize, signing_message, encode}', {'C06': Q, 'C07': Q, 'C11': Q},
   'signed bytes and signing digest equal a reference encoder written from the Yellow Paper / EIP-155 / 2930 / 1559; a strict decoder accepts the output, consumes it completely and returns every field',
-  'native: 3 kinds x 68 calldata lengths (0..=60, 255..257, 1100, 65535..65537) x 3 random field draws (byte widths 0..32, access lists up to 3x3) x 3 signatures (r,s at 1, n-1, random; both parities)')
+  'native: 3 kinds x 68 calldata lengths (0..=60, 255..257, 1100, 65535..65537) x 3 random field draws (byte widths 0..32, access lists up to 3x3) x 3 signatures (r,s at 1, n-1, random; both parities); 13 structured access lists (repeated keys / addresses, empty key lists, zero and 0xff keys) for both typed kinds')
+N('nb_bip32_published_vectors', 'src/hdk.rs', 'hdk::derive', {'C16': Q},
+  'hdk::derive reproduces BIP-32 test vector 1 (the only independent oracle for the derivation the selected-account clause rests on; C03 itself is not decidable here)',
+  'native: 5 published chain links (hardened and normal indices, index 10^9)')
+N('nb_ganache_published_accounts', 'src/hdk.rs', 'hdk::derive o Path::for_index o Mnemonic::seed', {'C16': Q},
+  'the key at m/44\'/60\'/0\'/0/i of the ganache mnemonic is the published `ganache --deterministic` account i',
+  'native: accounts 0..9 (published addresses)')
 N('nb_tx_kind_dispatch', TXN, 'Transaction::deserialize', {'C06': Q}, 'EIP-1559 when a fee-market field is present, else EIP-2930 when an access list is present, else legacy', 'native: all 8 key-presence combinations')
 N('nb_tx_json_number_spellings', TXN, 'transaction field deserialization', {'C13': Q, 'C11': Q},
   'every spelling of an integer denotes the same value and gives the identical encoding; negative, fractional, inexact, >= 2^256, empty and non-numeric spellings are refused; bytes need 0x + even hex; addresses 20 bytes; storage keys 32 bytes; legacy chain ids beyond 2^255-19 refused',
@@ -265,7 +271,7 @@ N('nb_cli_account_commands', CLI, 'address / export / public-key commands', {'C1
   'address, export, public-key print the EIP-55 address, 0x-hex secret and uncompressed public key of the key the library derives for the selector; flags == environment; the two selectors conflict',
   'native CLI: 2 mnemonics x 3 passphrases x 8 selectors x 3 commands x {flags, environment}')
 N('nb_cli_sign_hash_pairing', CLI, 'sign / hash commands', {'C16': Q, 'C15': Q, 'C11': Q},
-  'every sign subcommand signs (low-s, recoverable to the selected key) exactly the digest the matching hash subcommand prints; hash --signature == keccak(sign output), with and without 0x; legacy without chain id refused unless the override flag is given (then v in {27,28}); hash data / --message-hash',
+  'every sign subcommand signs (low-s, recoverable to the selected key) exactly the digest the matching hash subcommand prints; hash --signature == keccak(sign output), with and without 0x; legacy without chain id refused in both output modes unless the override flag is given (then v in {27,28}); hash data / --message-hash',
   'native CLI: 3 account selectors x (3 messages, 3 transactions, typed data, raw) + guard cases')
 N('nb_cli_malformed_inputs_are_ordinary_errors', CLI, 'every CLI parser', {'C17': Q, 'C09': Q, 'C13': Q, 'C14': Q, 'C15': Q},
   'malformed input to every parser named in C17 yields a non-zero, non-panic exit with a message and no output; 64 array suffixes are accepted',
